@@ -8,9 +8,10 @@
    PrattProofs.pratt_layered_fixed (the Pratt parser returns the tree of the derivation in the
    layered left-associative grammar).
 
-   _partial: the fragment [frag] has no array / map literal and no function call (the layered
-   grammar of PrattProofs.v has no such productions; the extracted models still format and
-   re-parse them on every run, harness/c06.go "roundtrip" — only the theorem stops there);
+   _partial: the fragment [frag] of the first two theorems has no array / map literal and no
+   function call (the layered grammar of PrattProofs.v has no such productions); literals and
+   calls AS WHOLE EXPRESSIONS / LIST ITEMS are covered by the list-level theorems further down;
+   the extracted models format and re-parse every expression on every run (harness/c06_roundtrip.go);
    and a dot key that is a keyword (m.for) is outside it too (the LDot production renders an IDENT).
 
    Hypotheses, all evaluated by the harness on every expression of every tree the real parser
@@ -29,7 +30,7 @@
    wrappers (which belong to typing); GroupExpression nodes are KEPT (the parser keeps them);
    a string literal is represented by its quoted text (strconv.Quote is injective). *)
 From Coq Require Import List String NArith ZArith Bool Arith.
-From EvyV Require Import Base FmtAst Format Pratt PrattProofs FormatParse FormatParseProofs.
+From EvyV Require Import Base FmtAst Format Pratt PrattProofs FormatParse FormatParseProofs FormatParseListProofs.
 From EvyV.Gen Require Import Prec.
 Import ListNotations.
 Local Open Scope nat_scope.
@@ -80,6 +81,47 @@ Proof.
 Qed.
 Print Assumptions C06_formatter_writes_a_layered_derivation.
 
+(* ---------- list level: array / map literals (single- and multi-line, with the comments,
+   blank lines and indentation the formatter re-emits between items), parenthesised calls and
+   bare niladic calls, proved directly against Pratt.parse_array_literal / parse_map_literal /
+   parse_expr_list / parse_func_call / parse_grouped (FormatParseListProofs.v).
+   [item_ok E w e]: e is, as a whole, an expression of the layered fragment (with its side
+   conditions, [base_ok]), or an array / map literal whose items are item_ok, or (f a b ...)
+   with item_ok arguments (f has parameters, the argument count is right), or the bare name of
+   a function without parameters.  Still _partial: a literal or a call may not be an OPERAND
+   (of an operator, index, dot, ...) — the layered grammar has no production for them; the
+   multiline items are not part of the Pratt model's trees (it does not record them), so the
+   statement is about the element / value / argument trees. ---------- *)
+Theorem C06_roundtrip_literals_and_calls_partial :
+  forall (E : env) (fixed : fixes) (w : bool) (lvl : nat) (e : fexpr),
+  no_tyerr E -> e_fix_slice E = true -> item_ok E w e ->
+  forall (st : pstate) (rest0 : list token) (fuel : nat),
+  is_wss st = w ->
+  rest st = toks_of_pieces (fmt_expr fixed lvl e) ++ rest0 ->
+  (w = false -> is_ws (look0 rest0) = false) ->
+  stop_tok w lowestPrec (look0 rest0) ->
+  2 * List.length (toks_of_pieces (fmt_expr fixed lvl e)) <= fuel ->
+  exists st', parse_expr E fuel lowestPrec st = Some (Some (fexpr_tree e), st')
+              /\ rest st' = rest0 /\ wss st' = wss st /\ errs st' = errs st.
+Proof. intros E fixed w lvl e NT Hfix Hok. exact (proj1 (item_rt E NT Hfix fixed w lvl e Hok)). Qed.
+Print Assumptions C06_roundtrip_literals_and_calls_partial.
+
+(* a call with arguments where parseTopLevelExpr is used (value of a declaration / assignment,
+   condition, return value):  f a b ...  up to the end of the line *)
+Theorem C06_roundtrip_toplevel_call_partial :
+  forall (E : env) (fixed : fixes) (lvl : nat) (n : str) (args : list fexpr)
+         (st : pstate) (rest0 : list token) (fuel : nat) (outer : list bool),
+  no_tyerr E -> e_fix_slice E = true ->
+  ident_text n = true -> func_of E n = Some false -> arity_wrong E n (List.length args) = false ->
+  Forall (item_ok E true) args ->
+  rest st = toks_of_pieces (fmt_expr fixed lvl (FCall n args)) ++ rest0 ->
+  wss st = false :: outer -> list_end (look0 rest0) ->
+  2 * List.length (toks_of_pieces (fmt_expr fixed lvl (FCall n args))) <= fuel ->
+  exists st', parse_toplevel E (parse_expr E fuel) fuel st = Some (Some (fexpr_tree (FCall n args)), st')
+              /\ rest st' = rest0 /\ wss st' = wss st /\ errs st' = errs st.
+Proof. intros E fixed lvl n args st rest0 fuel outer NT Hfix. exact (toplevel_call_rt E NT Hfix fixed lvl n args st rest0 fuel outer). Qed.
+Print Assumptions C06_roundtrip_toplevel_call_partial.
+
 (* prec_ok is needed: the formatter adds no parentheses *)
 Theorem C06_unparenthesised_tree_does_not_roundtrip :
   let v := fun n : string => FVar (s_ n) in
@@ -108,4 +150,22 @@ Example C06_rt_example_hyps :
   tight (C06_rt_example true) = true /\ tight (C06_rt_example false) = false /\
   Format.render (fmt_expr current_fixes 0 (C06_rt_example true)) = s_ "-a[i + 1].k*(b - c)<=m.x.(num)and!ok"%string /\
   Format.render (fmt_expr current_fixes 0 (C06_rt_example false)) = s_ "-a[i + 1].k * (b - c) <= m.x.(num) and !ok"%string.
-Proof. vm_compute. repeat split; reflexivity. Qed.
+Proof. vm_compute. repeat split; try reflexivity; repeat constructor. Qed.
+
+(*  [1 // one
+        x+1
+
+        (len a)]     as a list item, and   {a:[1 2] if:f}  *)
+Example C06_rt_list_example :
+  let v := fun n : string => FVar (s_ n) in
+  let E := {| e_funcs := [(s_ "len"%string, false); (s_ "f"%string, true)]; e_vars := [s_ "x"%string; s_ "a"%string];
+              e_arity := [(s_ "len"%string, Some 1)]; e_tyerr := fun _ _ _ => false; e_fix_slice := true |} in
+  let arr := FArr [k_el; (s_ "// one" ++ k_nl)%list; k_el; k_nl; k_nl; k_el]
+                  [FNum 0 (s_ "1"%string); FBin OpPlus true (v "x"%string) (FNum 0 (s_ "1"%string));
+                   FGroup (FCall (s_ "len"%string) [v "a"%string])] in
+  let m := FMap [s_ "a"%string; s_ "if"%string] [s_ "a"%string; s_ "if"%string]
+                [FArr [k_el; k_el] [FNum 0 (s_ "1"%string); FNum 0 (s_ "2"%string)]; FCall (s_ "f"%string) []] in
+  covered (e_funcs E) true arr = true /\ covered (e_funcs E) false m = true /\ item_ok E true arr /\
+  Format.render (fmt_expr current_fixes 1 arr) =
+    (s_ "[1 // one" ++ k_nl ++ s_ "        x+1" ++ k_nl ++ k_nl ++ s_ "        (len a)]")%list.
+Proof. vm_compute. repeat split; try reflexivity; repeat constructor. Qed.
